@@ -595,9 +595,8 @@ pub fn case_relay(kind: &str, text: &str) -> Vec<Finding> {
         }
         "PART" => (format!("PART #c :{}", text), "PART", vec!["#c".into(), text.into()]),
         "KICK" => {
-            if text.is_empty() {
-                return out; // an empty comment may be replaced by a default
-            }
+            // an explicitly empty comment is a text like any other (a default comment is for a
+            // KICK that gives none)
             (format!("KICK #c bob :{}", text), "KICK", vec!["#c".into(), "bob".into(), text.into()])
         }
         "WALLOPS" => (format!("WALLOPS :{}", text), "WALLOPS", vec![text.into()]),
